@@ -190,6 +190,87 @@ theorem growTo_inv (o : SqObj) (h : o.Inv) (k : Nat) :
   · show ({ o with salloc := _, mcap := _ } : SqObj) = _
     congr 1
 
+theorem grow_fields (o : SqObj) (hc : o.mcap = o.salloc) :
+    o.grow.2.salloc = (sqGrowN o.digital o.salloc o.n).2 ∧ o.grow.2.mcap = (sqGrowN o.digital o.salloc o.n).2 ∧
+    o.grow.2.res = o.res ∧ o.grow.2.ss = o.ss ∧ o.grow.2.xr = o.xr ∧ o.grow.2.digital = o.digital ∧
+    o.grow.2.start = o.start ∧ o.grow.2.stop = o.stop ∧ o.grow.1 = (sqGrowN o.digital o.salloc o.n).1 := by
+  refine ⟨rfl, ?_, rfl, rfl, rfl, rfl, rfl, rfl, rfl⟩
+  show (if (sqGrowN o.digital o.salloc o.n).2 ≠ o.salloc then (sqGrowN o.digital o.salloc o.n).2 else o.mcap) = _
+  split
+  · rfl
+  · rename_i e; simp only [ne_eq, Decidable.not_not] at e; rw [hc]; exact e.symm
+
+/-- **appending a residue the way the sequence readers do** (Grow, store the residue and one character in EVERY markup buffer,
+    `n++`, Grow, terminate): both stores and both terminators are inside the allocations, the object invariant is kept, and
+    exactly one residue / one markup character was appended -/
+theorem append_spec (o : SqObj) (h : o.Inv) (hn : o.n + 3 ≤ 2 ^ 64) (r m : Nat) :
+    ∃ ns o', append o r m = some (ns, o') ∧ o'.Inv ∧ o'.res = o.res ++ [r] ∧ o'.ss = o.ss.map (· ++ [m]) ∧
+      o'.xr = o.xr.map (· ++ [m]) ∧ o'.digital = o.digital ∧ o.salloc ≤ o'.salloc := by
+  have h1 : 1 ≤ o.salloc := by have := h.room; split at this <;> omega
+  obtain ⟨a1, a2, a3, _, _⟩ := sqGrowN_spec o.digital o.salloc o.n h1 (by omega)
+  obtain ⟨f1, f2, f3, f4, f5, f6, f7, f8, f9⟩ := grow_fields o h.cap
+  -- the object after the store
+  let o2 : SqObj := { o.grow.2 with res := o.grow.2.res ++ [r], ss := o.grow.2.ss.map (· ++ [m]), xr := o.grow.2.xr.map (· ++ [m]) }
+  have hc2 : o2.mcap = o2.salloc := by show o.grow.2.mcap = o.grow.2.salloc; rw [f1, f2]
+  have hn2 : o2.n = o.n + 1 := by show (o.grow.2.res ++ [r]).length = _; rw [f3]; simp [n]
+  have hd2 : o2.digital = o.digital := f6
+  have hs2 : o2.salloc = (sqGrowN o.digital o.salloc o.n).2 := f1
+  obtain ⟨b1, b2, b3, _, _⟩ := sqGrowN_spec o.digital o2.salloc o2.n (by rw [hs2]; omega) (by rw [hn2]; omega)
+  obtain ⟨g1, g2, g3, g4, g5, g6, g7, g8, g9⟩ := grow_fields o2 hc2
+  have g1' : o2.grow.2.salloc = (sqGrowN o.digital o2.salloc o2.n).2 := g1
+  have hcell : ¬ ((if o.digital then o.n + 1 else o.n) ≥ o.grow.2.salloc) := by
+    rw [f1]; intro hge
+    cases hdig : o.digital <;> simp only [hdig, if_true, Bool.false_eq_true, if_false] at hge a1 a2 a3 <;> omega
+  have hterm : ¬ ((if o.digital then o2.n + 1 else o2.n) ≥ o2.grow.2.salloc) := by
+    rw [g1']; intro hge
+    cases hdig : o.digital <;> simp only [hdig, if_true, Bool.false_eq_true, if_false] at hge b1 b2 b3 <;> omega
+  refine ⟨o.grow.1 + o2.grow.1, o2.grow.2, ?_, ⟨?_, ?_, ?_, ?_⟩, ?_, ?_, ?_, ?_, ?_⟩
+  · unfold append
+    simp only []
+    have e1 : (decide ((if o.digital = true then o.n + 1 else o.n) ≥ o.grow.2.salloc) ||
+        (o.hasMarkup && decide ((if o.digital = true then o.n + 1 else o.n) ≥ o.grow.2.mcap))) = false := by
+      rw [f2, ← f1]; simp [hcell]
+    rw [if_neg (by rw [e1]; simp)]
+    have e2 : (decide ((if o.digital = true then o2.n + 1 else o2.n) ≥ o2.grow.2.salloc) ||
+        (o.hasMarkup && decide ((if o.digital = true then o2.n + 1 else o2.n) ≥ o2.grow.2.mcap))) = false := by
+      rw [g2, ← g1]; simp [hterm]
+    rw [if_neg (by rw [e2]; simp)]
+  · -- room
+    show o2.grow.2.res.length + (if o2.grow.2.digital = true then 2 else 1) ≤ o2.grow.2.salloc
+    rw [g3, g6, g1']
+    have hn2' : o2.res.length = o2.n := rfl
+    rw [hn2']
+    have hd2' : o2.digital = o.digital := rfl
+    rw [hd2']
+    cases hdig : o.digital <;> simp only [hdig, if_true, Bool.false_eq_true, if_false] at b1 b2 b3 ⊢ <;> omega
+  · rw [g2, g1]
+  · intro s hs
+    rw [g4] at hs
+    show s.length = o2.grow.2.res.length
+    rw [g3]
+    have hs' : s ∈ o.grow.2.ss.map (· ++ [m]) := hs
+    rw [f4] at hs'
+    obtain ⟨s0, hs0, rfl⟩ := Option.mem_map.mp hs'
+    have := h.ss s0 hs0
+    show (s0 ++ [m]).length = (o.grow.2.res ++ [r]).length
+    rw [f3]; simp [this, n]
+  · intro s hs
+    rw [g5] at hs
+    show s.length = o2.grow.2.res.length
+    rw [g3]
+    have hs' : s ∈ o.grow.2.xr.map (· ++ [m]) := hs
+    rw [f5] at hs'
+    obtain ⟨s0, hs0, rfl⟩ := List.mem_map.mp hs'
+    have := h.xr s0 hs0
+    show (s0 ++ [m]).length = (o.grow.2.res ++ [r]).length
+    rw [f3]; simp [this, n]
+  · rw [g3]; show o.grow.2.res ++ [r] = _; rw [f3]
+  · rw [g4]; show o.grow.2.ss.map (· ++ [m]) = _; rw [f4]
+  · rw [g5]; show o.grow.2.xr.map (· ++ [m]) = _; rw [f5]
+  · rw [g6]; exact hd2
+  · rw [g1']; have : o2.salloc ≤ (sqGrowN o.digital o2.salloc o2.n).2 := b3
+    rw [hs2] at this; omega
+
 /-- the allocation after `esl_sq_Digitize`: raised to `n+2` when it was smaller -/
 def dsz (o : SqObj) : Nat := if o.salloc < o.n + 2 then o.n + 2 else o.salloc
 
